@@ -7,7 +7,7 @@ Oracle: the declarative schema + generic acceptor of vlib/schema.py (accept <=> 
 KSI_Signature_parseWithPolicy(EMPTY), KSI_AggregationPdu_parse / KSI_ExtendPdu_parse (PDU version option 1 and 2) and
 KSI_PublicationsFile_parse. Cases the property text does not decide are executed (sanitizers watch) but not judged.
 """
-import os, random
+import os, random, hashlib
 from vlib import core, kexec, pool, pki, refksi as R, gen, refserver as S, schema as K
 from vlib.refksi import T, uint
 from checks import c18
@@ -221,7 +221,7 @@ def explore(lib, acc, r, kind, version, label, raw, tier, budget=None):
         want_verdict = kind == 'sig' and cls == 'ins-nc' and not (m.in_meta or m.in_pubdata) and exp == K.ACCEPT and domain_skip is None
         q = lib.run(kind, version, mraw, verify=want_verdict)
         got = q.rc == 0
-        r.observe((entry, cls.split(':')[0] if cls.startswith('lex') else cls, m.path, m.note if cls.startswith(('retag', 'ins', 'move')) else cls, exp if domain_skip is None else 'skip', got))
+        r.observe(int.from_bytes(hashlib.blake2b(mraw, digest_size=8, person=entry.encode()).digest(), 'big'))
         if q.get('objonerr') or q.get('nullonok'):
             r.viol('%s:object-and-status-disagree' % entry, 'parser returned %s' % dict(q), lib.command(kind, version, mraw))
         if domain_skip is not None:
@@ -325,16 +325,16 @@ def run(ctx):
     world = dict(certs=certs, p7=p7)
     der_ok = [c.der for c in certs] + [p7]
     objs = []
-    nsig = 32 if quick else 240
+    nsig = 32 if quick else 640
     for i in range(nsig):
         want, kw = SIG_PLAN[i % len(SIG_PLAN)]
         big = (not quick) and i % 5 == 4
         s = make_signature(rng, want, 9 if quick else (40 if big else 14), small_time=not big, **kw)
         objs.append(('sig', 0, '+'.join(sorted(sig_features(s))) + ('+cal' if s.cal is not None else '') + ('+pub' if s.pub is not None else '') + ('+auth' if s.calauth is not None else '') + ('+rfc3161' if s.rfc is not None else ''), s.enc()))
-    for rep in range(2 if quick else 16):
+    for rep in range(2 if quick else 44):
         objs += make_pdus(rng, ctx.tier if rep == 0 else 'quick')
-    for i in range(2 if quick else 8):
-        objs.append(('pubfile', 0, 'file', make_pubfile(rng, world, 2 if quick else 2 + i)))
+    for i in range(2 if quick else 16):
+        objs.append(('pubfile', 0, 'file', make_pubfile(rng, world, 2 if quick else 2 + i % 5)))
     # one job per object (sizes differ a lot); big ones first
     objs.sort(key=lambda o: -len(o[3]))
     jobs = [(exe, ctx.env(), ctx.work, ctx.seed * 1000 + i, ctx.tier, der_ok, [o]) for i, o in enumerate(objs)]
@@ -343,7 +343,7 @@ def run(ctx):
                 'acknowledgment; a publications file with real DER certificates and PKCS#7 blob) x at EVERY tree position {delete, duplicate, duplicate flagged non-critical, swap with neighbour, '
                 'retag to every tag of the level and to unknown tags (critical / non-critical), N and F flags, +1 / -1 / empty, 16-bit header, value cases at the lexer boundaries} and insertion of an '
                 'unknown critical and non-critical element at every position of every expanded level, top tag changes, both PDU version options; expected outcome from the declarative schema + generic '
-                'acceptor (vlib/schema.py); distinct = (entry point, class, tag path, detail, expectation, outcome)')
+                'acceptor (vlib/schema.py); distinct = distinct mutated byte strings per entry point')
     ctx.assumptions = ['schema table written from the documented format (template tables read as a specification) and the property statement; acceptor independent of the SDK',
                        'not judged (executed only): N/F flags on known elements except a flagged duplicate of a single-valued element; publication / authentication record without calendar chain; '
                        'aggregation authentication record 0x804; UTF-8 overlong / surrogate / > U+10FFFF / lead bytes f5..f7; legacy id with empty, NUL-containing or non-UTF-8 name; 16-bit header inside metadata; '
@@ -361,3 +361,26 @@ def run(ctx):
         ctx.require(sum(v for k, v in c.items() if k.startswith('judged:')) >= (30000 if quick else 1000000), 'total judged trees')
     ctx.extra['judged_total'] = sum(v for k, v in c.items() if k.startswith('judged:'))
     ctx.extra['skipped_total'] = c.get('skipped_total', 0)
+
+
+def replay(ctx, path):
+    """re-executes the command stored in a witness file and prints the observation next to the reference verdict"""
+    exe = kexec.build(ctx)
+    lines = [l.strip() for l in open(path).read().splitlines() if l.strip()]
+    cmd = next(l for l in reversed(lines) if l.split(' ')[0] in ('sigx', 'pduparse', 'pubx'))
+    print('\n'.join(l for l in lines if l != cmd)[:2000])
+    tok = cmd.split(' ')
+    if tok[0] == 'sigx':
+        kind, version, hx = 'sig', 0, tok[3]
+    elif tok[0] == 'pubx':
+        kind, version, hx = 'pubfile', 0, tok[2]
+    else:
+        kind, version, hx = tok[2], int(tok[1]), tok[3]
+    raw = bytes.fromhex(hx) if hx != '-' else b''
+    lib = Lib(exe, ctx.env(), ctx.work, 0)
+    q = lib.ex.cmd(cmd)
+    rej, skp = K.Acceptor().root(kind, version, raw)
+    print('command:   %s' % cmd[:300])
+    print('library:   %s' % ('accepted' if q.rc == 0 else 'rejected rc=%#x' % q.rc), {k: (v[:200] if isinstance(v, str) else v) for k, v in q.items() if k != 'rc'})
+    print('reference: reject reasons %s, undecided %s' % (rej, skp))
+    lib.ex.close()
